@@ -1602,6 +1602,10 @@ func (u *Unit) execRange(st *State, x *ast.RangeStmt, label string) flow {
 		n = u.fresh("chan.n", SInt)
 		st.assume(tLe("0", n))
 	}
+	aliasOK := false
+	if valObj != nil && elemT != nil && isStructVal(elemT) && (kind == "slice" || kind == "array") {
+		aliasOK = u.rangeVarReadOnly(x, valObj, elemT)
+	}
 	st.vars[cntObj] = intVal("0")
 	bindIter := func(s *State) {
 		i := s.vars[cntObj].S
@@ -1629,7 +1633,13 @@ func (u *Unit) execRange(st *State, x *ast.RangeStmt, label string) flow {
 			return
 		}
 		if valObj != nil {
-			s.vars[valObj] = u.copyVal(s, ev)
+			if aliasOK {
+				// the body neither writes the iteration variable, nor takes its address, nor writes a field of its struct
+				// type, nor calls anything that could: the per-iteration copy is indistinguishable from the element itself
+				s.vars[valObj] = ev
+			} else {
+				s.vars[valObj] = u.copyVal(s, ev)
+			}
 		}
 	}
 	extra := func(s *State) map[string]Val {
@@ -1943,4 +1953,80 @@ func appendAssign(u *Unit, x *ast.AssignStmt) *ast.CallExpr {
 		return nil
 	}
 	return call
+}
+
+
+// rangeVarReadOnly: may the struct-valued iteration variable of a range loop stand for the element itself? Yes when the
+// body never assigns to the variable or to a field reached through it, never takes its address, never assigns to a
+// field of the element's struct type through anything else, never assigns to an element of any slice of that type,
+// and contains no function literal or go/defer statement (which could do any of that later).
+func (u *Unit) rangeVarReadOnly(x *ast.RangeStmt, v types.Object, elemT types.Type) bool {
+	ok := true
+	rootIs := func(e ast.Expr) bool {
+		for {
+			switch t := ast.Unparen(e).(type) {
+			case *ast.SelectorExpr:
+				e = t.X
+			case *ast.IndexExpr:
+				e = t.X
+			case *ast.StarExpr:
+				e = t.X
+			case *ast.Ident:
+				return u.info().ObjectOf(t) == v
+			default:
+				return false
+			}
+		}
+	}
+	writes := func(lhs ast.Expr) {
+		if rootIs(lhs) {
+			ok = false
+			return
+		}
+		switch t := ast.Unparen(lhs).(type) {
+		case *ast.SelectorExpr:
+			if sel, has := u.info().Selections[t]; has {
+				rt := sel.Recv()
+				if p, isP := rt.Underlying().(*types.Pointer); isP {
+					rt = p.Elem()
+				}
+				if types.Identical(rt, elemT) {
+					ok = false
+				}
+			}
+		case *ast.IndexExpr:
+			if tv := u.typeOf(t); tv != nil && types.Identical(tv, elemT) {
+				ok = false
+			}
+		}
+	}
+	ast.Inspect(x.Body, func(n ast.Node) bool {
+		switch t := n.(type) {
+		case *ast.AssignStmt:
+			for _, l := range t.Lhs {
+				writes(l)
+			}
+		case *ast.IncDecStmt:
+			writes(t.X)
+		case *ast.UnaryExpr:
+			if t.Op == token.AND && rootIs(t.X) {
+				ok = false
+			}
+		case *ast.FuncLit, *ast.GoStmt, *ast.DeferStmt:
+			ok = false
+		case *ast.CallExpr:
+			// a method with pointer receiver called on the variable takes its address
+			if se, isSel := ast.Unparen(t.Fun).(*ast.SelectorExpr); isSel && rootIs(se.X) {
+				if sel, has := u.info().Selections[se]; has && sel.Kind() == types.MethodVal {
+					if sig, _ := sel.Obj().Type().(*types.Signature); sig != nil && sig.Recv() != nil {
+						if _, isP := sig.Recv().Type().Underlying().(*types.Pointer); isP {
+							ok = false
+						}
+					}
+				}
+			}
+		}
+		return ok
+	})
+	return ok
 }
